@@ -1,6 +1,7 @@
 CONSTANTS
   Tier = "trap"
   SwResetCanCatchField = TRUE
+  SwResetCanCatchElem = TRUE
   SwResetExitFieldP = TRUE
   SwResetExitFieldV = TRUE
   SwResetExitElemP = TRUE
